@@ -130,16 +130,17 @@ func expectOracle(want [][]string) func(ls *linScenario, x *Exec, per [][]*Call)
 }
 
 // timeoutOracle: a lone blocking command with timeout t completes with null exactly at t
-func timeoutOracle(ms int64) func(ls *linScenario, x *Exec, per [][]*Call) [][2]string {
+func timeoutOracle(us int64) func(ls *linScenario, x *Exec, per [][]*Call) [][2]string {
+	ms := us / 1000 // the clock of the calls is in milliseconds; sub-millisecond timeouts end after 0..1 ms
 	return func(ls *linScenario, x *Exec, per [][]*Call) [][2]string {
 		if len(per[0]) == 0 {
-			if ms == 0 || ms > 50*365*24*3600*1000 {
+			if us == 0 || ms > 50*365*24*3600*1000 {
 				return nil // waits indefinitely (or for centuries of virtual time): correct
 			}
-			return [][2]string{{"timeout-never-fires", fmt.Sprintf("a block with a timeout of %d ms never ends", ms)}}
+			return [][2]string{{"timeout-never-fires", fmt.Sprintf("a block with a timeout of %d us never ends", us)}}
 		}
 		c := per[0][0]
-		if ms == 0 {
+		if us == 0 {
 			return [][2]string{{"timeout0-returned", "a block with timeout 0 completed although nothing happened: " + c.Reply.String()}}
 		}
 		el := c.TRet - c.TInv
@@ -147,7 +148,7 @@ func timeoutOracle(ms int64) func(ls *linScenario, x *Exec, per [][]*Call) [][2]
 			return [][2]string{{"timeout-reply", "a timed-out block must answer null, got " + c.Reply.String()}}
 		}
 		if el < ms-1 || el > ms+1 {
-			return [][2]string{{"timeout-duration", fmt.Sprintf("a block with a timeout of %d ms ended after %d ms of virtual time", ms, el)}}
+			return [][2]string{{"timeout-duration", fmt.Sprintf("a block with a timeout of %d us ended after %d ms of virtual time", us, el)}}
 		}
 		return nil
 	}
@@ -168,9 +169,9 @@ func endScenarios(tier string) []*Scenario {
 	for _, t := range []struct {
 		s  string
 		ms int64
-	}{{"0.001", 1}, {"0.5", 500}, {"1", 1000}, {"1000000", 1000000000}, {"10000000000", 10000000000000}, {"0", 0}} {
+	}{{"0.0001", 100}, {"0.0005", 500}, {"0.001", 1000}, {"0.0015", 1500}, {"0.5", 500000}, {"1", 1000000}, {"1000000", 1000000000000}, {"10000000000", 10000000000000000}, {"0", 0}} {
 		for ci, w := range [][]string{{"BLPOP", "k", t.s}, {"BRPOP", "k", "k2", t.s}, {"BLMOVE", "k", "m", "LEFT", "RIGHT", t.s}, {"BRPOPLPUSH", "k", "m", t.s}, {"BLMPOP", t.s, "1", "k", "LEFT"}} {
-			if tier != "thorough" && ci > 0 && t.ms != 500 && t.ms != 0 {
+			if tier != "thorough" && ci > 0 && t.ms != 500000 && t.ms != 500 && t.ms != 0 {
 				continue
 			}
 			add(&linScenario{name: "timeout/" + w[0] + "/" + t.s, threads: [][][]string{W(w...)}, extra: timeoutOracle(t.ms)})
